@@ -5,6 +5,7 @@ package wal
 
 import (
 	"encoding/binary"
+	"fmt"
 	"io"
 	"time"
 
@@ -132,6 +133,17 @@ func (d *decoder) varint() uint64 {
 		return 0
 	}
 	v, n := binary.Uvarint(d.buf)
+	if n == 0 {
+		// The buffer ends before the varint does.
+		d.err = io.ErrUnexpectedEOF
+		return 0
+	}
+	if n < 0 {
+		// More than 64 bits: never written by Encode. -n bytes were read, don't
+		// slice with it.
+		d.err = fmt.Errorf("%w: varint overflows 64 bits", ErrCorrupt)
+		return 0
+	}
 	d.buf = d.buf[n:]
 	return v
 }
